@@ -1,9 +1,10 @@
-use std::sync::{Arc, Condvar, Mutex};
+use std::sync::Arc;
 use tonic::{Code, Request, Response, Status};
 use triggered::Trigger;
 
 use crate::extended_appointment::UUID;
 use crate::protos as msgs;
+use crate::vsync::{Condvar, Mutex};
 use crate::protos::private_tower_services_server::PrivateTowerServices;
 use crate::protos::public_tower_services_server::PublicTowerServices;
 use crate::watcher::{
